@@ -432,3 +432,96 @@ def fam_cond(tier):
         g.add('if-folded', b'mixed @F() { if (' + lit(x) + b') return 1; return 0; }')
         g.add('if-global', b'mixed @F(' + pm + b') { ' + im + b'gm = a; if (gm) return 1; return 0; }', am)
         yield g
+
+
+# ------------------------------------------------------------------ switch table geometry: every table size, every probe position
+def geo_members(g, labels, ranges, x, tx, order=None):
+    """the spellings that matter for the table search: if-chain, switch on a mixed/typed/global selector, literal selector"""
+    T = TDECL[tx].encode()
+    items = [(b'x == ' + lit(l), b'case ' + lit(l) + b':', k) for k, l in enumerate(labels)]
+    items += [(b'x >= ' + lit(lo) + b' && x <= ' + lit(hi), b'case ' + lit(lo) + b' .. ' + lit(hi) + b':', len(labels) + k)
+              for k, (lo, hi) in enumerate(ranges)]
+    if order:
+        items = [items[i] for i in order]
+    # one test per line (the lexer limits the length of a line), no nesting (every test returns)
+    chain = b'\n  '.join(b'if (' + c + b') return %d;' % n for c, _, n in items) + b'\n  return -1;'
+    body = b'\n    '.join(c + b' return %d;' % n for _, c, n in items)
+    A = carg(x)
+    g.add('ifchain', b'mixed @F(mixed x) {\n  ' + chain + b'\n}', A)
+    g.add('switch', b'mixed @F(mixed x) {\n  switch (x) {\n    ' + body + b'\n    default: return -1;\n  }\n}', A)
+    g.add('switch-typed', b'mixed @F(' + T + b' x) {\n  switch (x) {\n    ' + body + b'\n  }\n  return -1;\n}', A)
+    g.add('switch-folded', b'mixed @F() {\n  switch (' + lit(x) + b') {\n    ' + body + b'\n    default: return -1;\n  }\n}')
+
+
+def stride_order(n):
+    """a fixed permutation of 0..n-1 (source order of the labels must not matter)"""
+    import math
+    step = 7
+    while math.gcd(step, n) != 1:
+        step += 2
+    return [(i * step + 3) % n for i in range(n)] if n > 1 else [0]
+
+
+@family('switchgeo')
+def fam_switchgeo(tier):
+    NMAX = 40 if tier == 'deep' else 20
+    # sorted integer tables (labels never adjacent, so no direct table): small labels and 64-bit labels
+    for kind, lab in (('small', lambda k, n: -35 + 10 * k + (k % 3)), ('wide', lambda k, n: (k - n // 2) * ((1 << 32) + 7) + (k % 3))):
+        for n in range(1, NMAX + 1):
+            labels = [lab(k, n) for k in range(n)]
+            if n == 1 and kind == 'small':
+                labels = [12]
+            sel = []
+            for l in labels:
+                sel += [l - 1, l, l + 1]
+            sel = [labels[0] - 100] + sel + [labels[-1] + 100]
+            for x in sel:
+                g = Group('switch', 'geometry-sparse', 'i' + (':i64' if big(x, *labels) else ''), ('V', canon(sw_ref(labels, (), x))),
+                          b'switch (' + lit(x) + b') with %d sorted %s labels ' % (n, kind.encode()) + lit(labels[0]) + b'..' + lit(labels[-1]))
+                geo_members(g, labels, [], x, 'i', stride_order(n) if n % 2 else None)
+                yield g
+    # range tables: a range takes two table entries; m ranges + s single labels = n entries, ranges first / last / alternating
+    for n in range(2, NMAX + 1):
+        for m in range(1, n // 2 + 1):
+            s = n - 2 * m
+            for place in ('first', 'last', 'alternate'):
+                if s == 0 and place != 'first':
+                    continue
+                kinds = {'first': ['r'] * m + ['s'] * s, 'last': ['s'] * s + ['r'] * m}.get(place)
+                if kinds is None:
+                    kinds, r_left, s_left = [], m, s
+                    while r_left or s_left:
+                        if r_left:
+                            kinds.append('r'); r_left -= 1
+                        if s_left:
+                            kinds.append('s'); s_left -= 1
+                labels, ranges, sel = [], [], [-1000]
+                pos = -40
+                for kd in kinds:
+                    if kd == 'r':
+                        ranges.append((pos, pos + 4))
+                        sel += [pos - 1, pos, pos + 2, pos + 4, pos + 5]
+                    else:
+                        labels.append(pos)
+                        sel += [pos - 1, pos, pos + 1]
+                    pos += 10
+                sel.append(pos + 1000)
+                for x in sel:
+                    g = Group('switch', 'geometry-ranges', 'i', ('V', canon(sw_ref(labels, ranges, x))),
+                              b'switch (' + lit(x) + b') table of %d entries: %d ranges %s, %d labels' % (n, m, place.encode(), s))
+                    geo_members(g, labels, ranges, x, 'i')
+                    yield g
+    # string tables (sorted by the address of the shared string): every label, near misses, unshared selectors
+    for n in range(1, NMAX + 1):
+        labels = [b'k%02d' % k for k in range(n)]
+        sel = [b'', b'zzzz']
+        for l in labels:
+            sel += [l, l + b'x', l[:-1]]
+        for x in sel:
+            g = Group('switch', 'geometry-strings', 's', ('V', canon(sw_ref(labels, (), x))),
+                      b'switch (' + lit(x) + b') with %d string labels' % n)
+            geo_members(g, labels, [], x, 's', stride_order(n) if n % 2 else None)
+            if len(x) >= 2:
+                body = b'\n    '.join(b'case ' + lit(l) + b': return %d;' % k for k, l in enumerate(labels))
+                g.add('switch-concat', b'mixed @F(string p, string q) {\n  switch (p + q) {\n    ' + body + b'\n    default: return -1;\n  }\n}', carg(x[:1]) + b' ' + carg(x[1:]))
+            yield g
